@@ -11,3 +11,7 @@ package types
 // verif:func IterateConsensusStateAscending
 //@ loop 1 forkey rev uint64, h uint64 :: host.ConsensusStateKey(clienttypes.NewHeight(rev, h))
 //@ loop 1 continue [parse-back] ncalls("cb") == 1 && as(callarg("cb", 0), clienttypes.Height).RevisionNumber == rev && as(callarg("cb", 0), clienttypes.Height).RevisionHeight == h
+
+// ---- a consensus state reports the client type of its own light client (C13: exported genesis validates) ----
+// verif:func (*ConsensusState).ClientType
+//@ ensures [type-agree] result == (&ClientState{}).ClientType()
